@@ -55,6 +55,18 @@ def included_verif_files(staged_raw):
     return sorted(files)
 
 
+def manifest_claim(pid):
+    """the claim text of MANIFEST.json for this property (it states what is and what is not decided)"""
+    try:
+        m = json.load(open(os.path.join(VERIF, 'MANIFEST.json')))
+        for c in m.get('checks', []):
+            if c.get('property_id') == pid:
+                return c['level_claimed']['text']
+    except Exception:
+        pass
+    return ''
+
+
 def run_check(mod, tier, update_expected=False, only=None, keep=False, verbose=False):
     pid = mod.ID
     t0 = time.time()
@@ -278,6 +290,26 @@ def run_check(mod, tier, update_expected=False, only=None, keep=False, verbose=F
                     suffix = ''
             except Exception as e:
                 rec['native_replay'] = {'error': str(e)}
+        if suffix and getattr(j, '_shared_entry', False) and staged_of.get(j.name):
+            # generic native replay: the staged text itself, compiled with gcc, fed with the trace's nondet values
+            try:
+                from . import replay as RP
+                seq = RP.nondet_sequence(getattr(R.trace_for, 'last_trace', []) or [])
+                nr = RP.replay(staged_of[j.name], j.entry, o['desc'], seq, work, safe[:60])
+                rec['native_replay'] = nr
+                if nr.get('confirmed'):
+                    suffix = ''
+                if nr.get('source') and os.path.exists(nr['source']):
+                    keep = os.path.join(rep_dir, safe + '.native.c')
+                    shutil.copy(nr['source'], keep)
+                    stubs = nr['source'][:-2] + '_stubs.c'
+                    if os.path.exists(stubs):
+                        shutil.copy(stubs, keep[:-2] + '_stubs.c')
+                    nr['source'] = keep
+                    nr['rerun'] = 'gcc -O0 -w -fno-builtin %s%s -o /tmp/replay.bin -lm -ldl -lpthread && /tmp/replay.bin  # exit 1 = obligation violated natively' % (
+                        keep, (' ' + keep[:-2] + '_stubs.c') if os.path.exists(stubs) else '')
+            except Exception as e:
+                rec['native_replay'] = {'confirmed': False, 'reason': 'replay machinery failed: %s' % e}
         json.dump(rec, open(path, 'w'), indent=1)
         out_lines.append('VIOLATION property=%s replay=%s job=%s obligation=%s (%s)%s'
                          % (pid, path, jn, o['id'], o['desc'][:100].replace('\n', ' '), suffix))
@@ -299,6 +331,20 @@ def run_check(mod, tier, update_expected=False, only=None, keep=False, verbose=F
             if x not in dropped:
                 dropped.append(x)
     dropped += meta.get('dropped_by_staging', [])
+    # functions of /repo this run generated obligations in, and those a contract/harness-contract is stated for
+    repo_prefix = S.REPO.rstrip('/') + '/'
+    fn_obl = {}
+    for j in jobs:
+        for o in results[j.name]['obligations']:
+            if o['loc'].startswith(repo_prefix) and o.get('func'):
+                fn_obl[o['func']] = fn_obl.get(o['func'], 0) + 1
+    fn_contract = set(meta.get('functions', []))
+    for j in jobs:
+        for f in ([j.enforce] if j.enforce else []) + list(j.enforce_more or []):
+            fn_contract.add(f)
+        for f in (j.count_funcs or []):
+            if f in fn_obl or not re.match(r'(vp_|h_|run_|mem|str|malloc|free|calloc|realloc)', f):
+                fn_contract.add(f)
     cov = {
         'obligations': proof_total - kf_proof, 'discharged': proof_ok, 'known_finding_obligations': kf_proof + kf_bounded,
         'bounded_obligations': bnd_total - kf_bounded, 'bounded_discharged': bnd_ok,
@@ -311,11 +357,12 @@ def run_check(mod, tier, update_expected=False, only=None, keep=False, verbose=F
             'cbmc/goto-cc/goto-instrument 6.11.0 and the back end named per job',
             'goto-cc C semantics for x86-64 LP64 little endian; machine integers are bit-vectors (no mathematical idealisation)',
             'the stager (vp/stage.py): tokenizer + loop-contract injection, self-checked against plain goto-cc -E output each run'],
-        'functions_under_contract': meta.get('functions', []),
+        'functions_under_contract': sorted(fn_contract),
+        'repo_functions_with_obligations': dict(sorted(fn_obl.items())),
         'backends': backends,
         'samples': samples[:40],
         'dropped_by_staging': dropped,
-        'undecided_part': meta.get('undecided_part', ''),
+        'undecided_part': meta.get('undecided_part', '') or manifest_claim(pid),
         'known_findings_matched': ['%s/%s' % k for k in known_hits],
         'undecided_reasons': undecided,
         'explanation': meta.get('explanation', ''),
